@@ -3,6 +3,7 @@ package gbn
 import (
 	"context"
 	"io"
+	"math"
 	"time"
 )
 
@@ -139,6 +140,18 @@ handshakeLoop:
 
 		g.log.Debugf("Received client SYN. Sending back.")
 		n = msg.(*PacketSYN).N
+
+		// The sequence space is s = n+1 and is kept in a uint8, so a
+		// window of 255 would wrap s to zero, and a window of zero
+		// could never send anything. A client never proposes either
+		// value, so such a SYN is ignored like any other unexpected
+		// packet.
+		if n == 0 || n == math.MaxUint8 {
+			g.log.Tracef("Ignoring SYN with invalid window size %d",
+				n)
+
+			continue handshakeLoop
+		}
 
 		// Send SYN back
 		syn := &PacketSYN{N: n}
